@@ -2,6 +2,8 @@ import SignalGen.Eq.Dispatch
 import SignalGen.Eq.Freq
 import SignalProofs.Props.C08
 import SignalProofs.Props.C17
+import SignalProofs.Props.C09Rel
+import SignalProofs.Props.Cells
 /-!
 # C08 and C17, stated about the code as it is written now
 
@@ -52,5 +54,29 @@ theorem gen_C17_eq (q : ℚ) (hq : C17.FreqOK q) (n : ℤ) (hn0 : 0 ≤ n) (hn :
 level of the values the regenerated functions compute -/
 theorem gen_C17_roundtrip (q : ℚ) (hq : C17.FreqOK q) (hq6 : q ≤ 1000000) (n : ℤ) (hn0 : 0 ≤ n) (hn : (n:ℚ) ≤ 86400 * q) :
     C17.evQ q (C17.durQ q n) = n := C17.roundtrip q hq hq6 n hn0 hn
+
+end Sig.GenEq
+
+namespace Sig.GenEq
+open Sig Sig.Spec
+
+/-- **C09** on the regenerated code, signed sources at the exact (format, depth) pairs: the cell the regenerated
+`SignedAsFloat` kernel produces decodes to the value `s2fK` computes, which is in [−1, 1], hits the endpoints, and is
+within one step - absolutely and relatively - of amplitude / full scale -/
+theorem gen_C09_signed (s d : Kind) (hs : s.isSigned = true) (hd : d.isFloat = true)
+    (hE : C09.Exact d.fmt s.width) (x : Int) (hx : -(C09.S s.width) ≤ x ∧ x ≤ C09.M s.width) :
+    ∃ c, genKernel .signedAsFloat s s.width d d.width x = some c ∧
+      cellToFV d c = s2fK d.fmt s.width x ∧
+      Spec.C09.rangeOK (cellToFV d c) = true ∧
+      Spec.C09.endpointsOK true s.width x (cellToFV d c) = true ∧
+      Spec.C09.oneStepOK d.fmt true s.width x (cellToFV d c) = true ∧
+      Spec.C09.oneStepRelOK d.fmt true s.width x (cellToFV d c) = true := by
+  have hk : genKernel .signedAsFloat s s.width d d.width x = some (fvToCell d (s2fK d.fmt s.width x)) := by
+    simp only [genKernel, signedAsFloat_k_eq _ _ _ _ (width_lt s), Option.map_some]
+  refine ⟨_, hk, Cells.s2f_cell d s.width x, ?_, ?_, ?_, ?_⟩ <;> rw [Cells.s2f_cell d s.width x]
+  · exact C09.s_rangeOK hE x hx
+  · exact C09.s_endpointsOK hE x hx
+  · exact C09.s_oneStepOK hE x hx
+  · exact C09.s_oneStepRelOK hE x hx
 
 end Sig.GenEq
